@@ -228,7 +228,7 @@ reg("C01", fast=True, fast_only=("sine",), coqchk_norec=True,
                   "Classical_Prop.classic, FunctionalExtensionality.functional_extensionality_dep as Print Assumptions reports them, and the Interval tactic (bounds on PI, 2^-80) which computes with the kernel's primitive integers and floats "
                   "(PrimInt63.*, PrimFloat.*, Uint63 specification axioms of the standard library)",
                   "thorough tier: coqchk re-checks every module of this development with -norec and admits the installed libraries (standard library reals, Interval, Coquelicot, Flocq) as they are - re-checking those takes over 40 minutes"],
-    level_text="Constant pacer, in full: closed_loop_upper (generic, all pacers/stall histories/lengths), const_no_panic, const_neg_stops, const_zero_unlimited, const_overflow_stops, const_contract, const_positive_wait, const_lower proved over Z with the uint64/int64 wrap-arounds written out; bit-exact tie. "
+    level_text="attack_loop_constant_on_schedule / attack_loop_linear_on_schedule / attack_loop_sine_on_schedule_partial carry the closed-loop bound from the idealised loop to every reachable state of the attack LTS (the loop of lib/attack.go with workers, channels, Stop calls, late wake-ups; tie: real ConstantPacer attacks in virtual time in C04's run). Constant pacer, in full: closed_loop_upper (generic, all pacers/stall histories/lengths), const_no_panic, const_neg_stops, const_zero_unlimited, const_overflow_stops, const_contract, const_positive_wait, const_lower proved over Z with the uint64/int64 wrap-arounds written out; bit-exact tie. "
                "Linear pacer: linear_contract_pos, linear_closed_loop_upper (non-negative slope, every stall history, calls at rates <= 5*10^8/s), linear_schedule_mono, linear_positive_wait, linear_neg_stops, linear_zero_unlimited proved over exact rationals; linear_neg_refuted (negative slope: known finding); tie inside a guard band. "
                "Sine pacer, PARTIAL: sine_schedule_enclosed / sine_rate_enclosed (the checker's Q-interval evaluator - Taylor sums + angle doubling + outward rounding - encloses the real schedule and rate), sine_schedule_mono, and sine_closed_loop_upper_partial (count within one hit for every history whose calls keep the per-call contract) proved over R; "
                "that the float64 inversion in Pace keeps the contract is not proved: it is decided call by call on the real pacer with the verified enclosures.",
@@ -237,7 +237,7 @@ reg("C01", fast=True, fast_only=("sine",), coqchk_norec=True,
 reg("C19",
     needs_cli=True,
     rule="textual flag values fed to flag.Value.Set of the real flag types through the verif driver of package main: "
-         "-rate N, N/unit, N/kunit, N/compound, 0, infinity and 17 malformed forms (each both as raw text against the "
+         "-rate N, N/unit, N/kunit, N/compound, N/fraction-of-a-unit (.5s, 0.5s, 1.5s, .25ms, 2.5h, .5s500ms), 0, infinity and 17 malformed forms (each both as raw text against the "
          "model and against the generator's intent, plus the String()->Set round trip; sequences of 2..4 -rate flags); 1..8 repeated -header lines with "
          "random spacing/case and malformed lines; -max-body in every documented notation, -1 and malformed; -dns-ttl; "
          "1..6 repeated -connect-to tuples; -resolvers lists (IPv4 with/without port, invalid, IPv6 = declared don't-care); "
@@ -266,7 +266,7 @@ reg("C06",
          "RoundTripper: 6 methods x 3 URLs, 0..8 target headers over 11 keys incl. case variants of Host / X-Vegeta-Seq / "
          "X-Vegeta-Attack, optional request body, attack name or none, max-body in {-1,0,|b|-1,|b|,|b|+1,3}, chunked option, "
          "redirect policy in {-1,0,1,2,10} with 0..3 scripted 302 hops, status 100..599, response bodies of 0..5000 bytes "
-         "delivered in random chunk sizes, transport error, read fault after k bytes; all cases are non-trivial",
+         "delivered in random chunk sizes, declared Content-Length unknown / exact (every 4th case) / a HEAD answer's (every 9th case: HEAD target, positive length, no body), transport error, read fault after k bytes; all cases are non-trivial",
     clauses={1: "result method/URL differ from the target's", 2: "request method/URL/body differ from the target's",
              3: "a target header is missing or altered in the request (key case / values)", 4: "request carries a header that is neither the target's nor injected",
              5: "sequence header does not match the result's sequence number", 6: "attack-name header wrong", 7: "Host header did not set the request host",
@@ -359,7 +359,7 @@ _T2_TB = ["translator harness/cmd/skel (go/ast, syntactic): which identifiers it
 reg("C05", gen=gen_skel, obligation_files=["Props/C05.v", "Gen/Skel.v"],
     rule="T2: the skeleton of Attacker.hit is regenerated and same_section_ok must hold of it by reflection. T1: real attacks at "
          "unlimited rate for 15 ms (at most 4000 results) with 1..64 workers on a transport that records, per sequence number, its "
-         "entry instant and duration (optionally sleeping up to 50us); every case is non-trivial",
+         "entry instant and duration (optionally sleeping up to 50us); every 7th case starts a second Attack of the same Attacker 3 ms into the first (the first attack alone is judged); every case is non-trivial",
     clauses={1: "sorted by sequence number the timestamps decrease somewhere (or sequence numbers are not 0..n-1)", 2: "a timestamp lies before the attack's start",
              3: "a timestamp lies after the instant the request reached the transport", 4: "a latency is negative or smaller than the time the transport took",
              5: "timestamp + latency lies before the transport returned",
@@ -367,13 +367,13 @@ reg("C05", gen=gen_skel, obligation_files=["Props/C05.v", "Gen/Skel.v"],
     assumptions=["the stress is probabilistic: it samples the schedules the Go scheduler produces on this machine; the structural guarantee is the T2 obligation",
                  "the Go memory model is not formalised: the interleaving semantics of the skeletons (Model/Skel.v, Model/SkelData.v) is sequentially consistent"],
     trusted_base=_T2_TB,
-    level_text="same_section_sound is proved in Coq for every skeleton, thread count and interleaving (the timestamp read, sequence read and increment form a critical section); section_orders_stamps mechanises the reduction: for every accepted skeleton, any number of threads, any interleaving and any clock that never runs backwards, the sequence numbers read are pairwise different and ordered like the timestamps (hit_stamps_ordered: for the skeleton regenerated from the current source); hit_same_section is re-proved by reflection on the skeleton regenerated from the current source on every run; hit_ordered and ts_bounds are proved as invariants of the attack LTS where the section is one step. Tie: translator (T2) + stress runs judged by a checker defined in Coq.",
+    level_text="same_section_sound is proved in Coq for every skeleton, thread count and interleaving (the timestamp read, sequence read and increment form a critical section); seq_counter_single_writer (regenerated from the source on every run: hit's increment is the only statement of lib/attack.go writing the counter field) discharges the model's premise that nothing else changes the counter; section_orders_stamps mechanises the reduction: for every accepted skeleton, any number of threads, any interleaving and any clock that never runs backwards, the sequence numbers read are pairwise different and ordered like the timestamps (hit_stamps_ordered: for the skeleton regenerated from the current source); hit_same_section is re-proved by reflection on the skeleton regenerated from the current source on every run; hit_ordered and ts_bounds are proved as invariants of the attack LTS where the section is one step. Tie: translator (T2) + stress runs judged by a checker defined in Coq.",
     technique="Coq soundness proof of a static checker + mechanised reduction to ordered stamps (all interleavings, any clock) + reflection on a skeleton regenerated from source; LTS invariant; stress",
     timeout={"quick": 600, "thorough": 3000})
 reg("C15", gen=gen_skel, obligation_files=["Props/C15.v", "Gen/Skel.v"],
     rule="T2: the skeletons of the three targeter closures are regenerated and lockset_ok must hold of each by reflection. T1: 1..64 "
          "goroutines draw concurrently from one real http / JSON targeter over 0..5000 targets until each has seen exhaustion three "
-         "times (every call stamped by a global atomic counter), and n draws from a static targeter over 1..7 targets; "
+         "times (every call stamped by a global atomic counter; every other stream case with default headers built as repeated -header flags build them - three values for the key the targets set themselves, spare capacity - and every target handed out looked at again when all draws are over), and n draws from a static targeter over 1..7 targets; "
          "real attacks (unlimited rate, 1..32 workers) drawing 1..1500 targets with own header lines and bodies from a JSON / http stream targeter, every request recorded by the transport; every case is non-trivial",
     clauses={10: "a target was delivered twice", 11: "a target was lost (or an unknown one delivered)", 12: "a delivered target mixes fields of different targets",
              13: "a call failed with an error other than exhaustion", 14: "a call that started after exhaustion was reported still delivered a target or error",
@@ -491,7 +491,7 @@ reg("C08", needs_cli=True,
     technique="Coq proof over a stream algebra (tee/multi-reader replay); differential correspondence incl. the CLI",
     timeout={"quick": 900, "thorough": 3000})
 reg("C09", needs_cli=True,
-    rule="streams of 1..12 " + _CODEC_GEN + " (bodies up to 2000 / 20000 bytes) written by the real encoders through a writer that records the offset after every Encode call; gob and JSON "
+    rule="streams of 1..12 " + _CODEC_GEN + " (bodies up to 2000 / 20000 bytes; cases 8 and 20 of every 30: one result the JSON encoder refuses - a year beyond 9999 - in the middle, the records written being those whose Encode returned nil) written by the real encoders through a writer that records the offset after every Encode call; gob and JSON "
          "streams are cut at every byte offset (long streams in quick: a stride plus every record boundary +-2) and CSV streams at every record boundary, each prefix decoded by the real decoder; a sample of the gob / JSON prefixes (6 random offsets and every record boundary, -1, +1..8) is also decoded through format detection (DecoderFor) and, every 8th case, 3 prefixes through the `vegeta encode -to json` command; every 40th case runs the real `vegeta attack` against a local server, kills it (SIGKILL) about a second in and decodes its output file; all cases non-trivial",
     exhaustive="cut points of each generated gob / JSON stream up to 6000 bytes (all streams in thorough); record boundaries of CSV streams",
     clauses={1: "a cut stream decoded to something other than exactly the records completely written before the cut", 2: "an Encode call left a partial record in the stream",
